@@ -97,6 +97,8 @@ class Report:
     RESOURCE = ("Overflow encountered when expanding vector", "out of memory", "MemoryError", "max. memory exceeded", "solver resource limit", "std::bad_alloc", "bad_alloc")
 
     def encoder_defect(self, what):
+        if "Unsupported:" in what:
+            what = what.replace("Unsupported:", "unsupported:")
         if "unsupported:" in what and "model does not reproduce" not in what:
             # the code under analysis uses a construct outside the MIR fragment / std models of Engine B: that path is NOT
             # explored.  Per the interface the exit code speaks about what was explored; the gap is reported, not hidden.
